@@ -225,6 +225,7 @@ func payloadCodecs() []*codec {
 			{"flags-too-long", cat(h, []byte{1, 1}, rep(0, 32), []byte{2, 0, 0})},
 			// a transaction count above 2^63 must not lift the limit of the hash list
 			{"tx-count-2^64-1", cat(h, rep(0xff, 9), []byte{0xfe, 0, 0, 0, 4})},
+			{"tx-count-and-hash-count-2^64-1", cat(h, rep(0xff, 9), rep(0xff, 9))},
 		}
 	}
 	out = append(out, mb)
